@@ -631,6 +631,12 @@ def gen_dataset(spec: Spec, ddesc):
         a = rng.uniform(-sc, sc, size=shape)
       elif d == 'onesided':
         a = rng.uniform(0.01 * sc, sc, size=shape)
+      elif d == 'relu':
+        a = np.maximum(rng.normal(0, sc, size=shape), 0.0)        # exact zeros
+      elif d == 'zero_first':
+        a = np.zeros(shape) if k == 0 else rng.normal(0, sc, size=shape)
+      elif d == 'negative':
+        a = -rng.uniform(0.01 * sc, sc, size=shape)
       else:
         a = np.full(shape, sc * (1 if k % 2 == 0 else -0.5))
       sample[nm] = a.astype(np.float32)
@@ -641,5 +647,6 @@ def gen_dataset(spec: Spec, ddesc):
 def draw_dataset_desc(r: random.Random, model_idx, n=None):
   n = n or r.randint(1, 8)
   return dict(model=model_idx, seed=r.randrange(1 << 30), n=n,
-              dist=r.choices(['normal', 'uniform', 'onesided', 'const'], [5, 3, 2, 1])[0],
+              dist=r.choices(['normal', 'uniform', 'onesided', 'const', 'relu', 'zero_first', 'negative'],
+                             [10, 6, 4, 2, 2, 1, 1])[0],
               scales=[round(r.uniform(0.05, 8.0), 3) for _ in range(n)])
